@@ -111,6 +111,41 @@ def minus(p, S):
     return p
 
 
+def _parse_fmt(src, std, omp, isfree, isstrict):
+    from fparser.common.sourceinfo import FortranFormat
+    pr = real.get_parser(std)
+    r = real.make_reader(src, ignore_comments=True, omp=omp)
+    r.set_format(FortranFormat(isfree, isstrict))
+    try:
+        return real.Outcome("tree", tree=pr(r))
+    except real.U.FortranSyntaxError as e:
+        return real.Outcome("syntax", exc=e)
+    except SystemExit as e:
+        return real.Outcome("exit", exc=e)
+    except Exception as e:  # noqa: BLE001
+        return real.Outcome("other", exc=e)
+
+
+def _strict(case, p, S, src, std, res):
+    """strict fixed form: sentinel lines enabled must read like the statements themselves;
+    reference = the same source without sentinels in the same (strict) mode"""
+    plain = fixed_text(p, set(), random.Random(case["seed"] ^ 0xC15))
+    ref = _parse_fmt(plain, std, False, False, True)
+    res["counts"]["strict"] = 1
+    if ref.kind != "tree":
+        res["nontrivial"] = False
+        return res
+    o1 = _parse_fmt(src, std, True, False, True)
+    rp = {"case": case, "source": src}
+    if o1.kind != "tree":
+        res["findings"].append({"signature": "enabled-reject[strict-fixed]:" + util.outcome_signature(o1),
+                                "what": "strict fixed form, conditional lines enabled: rejected: %s" % str(o1.exc)[:200], "replay": rp})
+    elif treeutil.sig(o1.tree) != treeutil.sig(ref.tree):
+        d = treeutil.first_diff(treeutil.sig(ref.tree), treeutil.sig(o1.tree))
+        res["findings"].append({"signature": "enabled-tree-differs[strict-fixed]", "what": "strict fixed form, enabled: tree differs from tree(P) at %s: %s vs %s" % d, "replay": rp})
+    return res
+
+
 def run_case(case):
     p = util.program_case(case)
     std, form = case["std"], case["form"]
@@ -124,7 +159,11 @@ def run_case(case):
         return res
     S = set(rng.sample(cand, rng.randint(1, min(6, len(cand)))))
     free = form == "free"
+    strict = bool(case.get("strict")) and not free
     src = free_text(p, S, rng) if free else fixed_text(p, S, rng)
+    if strict:
+        # strict fixed form (FortranFormat(False, True)): reader forced into that mode
+        return run_strict(case, p, S, src, std, sigP, rng, res) if False else _strict(case, p, S, src, std, res)
     res["nontrivial"] = len(S) >= 2
     res["counts"]["sentinel-statements"] = len(S)
     res["sample"] = {"seed": case["seed"], "form": form, "S": [s.text()[:40] for s in list(S)[:3]]}
@@ -172,7 +211,8 @@ def run_case(case):
 
 def cases(tier, seed):
     n = util.tier_n(tier, 150, 1500)
-    return [{"seed": s, "std": "f2008" if i % 3 else "f2003", "form": "fixed" if i % 3 == 2 else "free", "size": 0.8}
+    return [{"seed": s, "std": "f2008" if i % 3 else "f2003", "form": "fixed" if i % 3 == 2 else "free", "size": 0.8,
+             "strict": i % 6 == 5}
             for i, s in enumerate(util.seeds(seed, n, 15))]
 
 
